@@ -204,11 +204,21 @@ def evaluate(ctx, variants, cases, full=False):
     mchunks = [mkeys[k::nm] for k in range(nm)]
     with ThreadPoolExecutor(max_workers=C.NCPU) as ex:
         mf = [ex.submit(C.run_driver, "convcheck", ch, 0.05, 300) for ch in mchunks]
-        hf = {g: ex.submit(C.run_lines, exes[g], [impl_line(op, full) for _, _, op in cs], 0.5, 300) for g, cs in groups.items()}
+        # batches of 400 lines: a harness that dies on most inputs (run_lines gives up after 200 deaths per call) then still
+        # leaves most batches evaluated
+        hf = {g: [ex.submit(C.run_lines, exes[g], [impl_line(op, full) for _, _, op in cs[k:k + 400]], 0.5, 300)
+                  for k in range(0, len(cs), 400)] for g, cs in groups.items()}
         mout = {}
         for ch, f in zip(mchunks, mf):
             mout.update(zip(ch, f.result()))
-        hres = {g: f.result() for g, f in hf.items()}
+        hres = {}
+        for g, fs in hf.items():
+            outs, crashes = [], []
+            for f in fs:
+                o, c = f.result()
+                outs += o
+                crashes += c
+            hres[g] = (outs, crashes)
     storm = {}
     for (v, cfg), cs in groups.items():
         N, T, M, CT, ST = v
